@@ -373,7 +373,11 @@ Definition o_rename (s : ofs) (oldname newname : str) : ofs * res :=
             let n_is_dir := match nchild with Some (_, nn) => on_dir nn | None => false end in
             let n_ok := match nchild with Some _ => true | None => false end in
             if n_is_dir
-            then (s, RFail (if owin s then EW_AccessDenied else EFileExists))
+            then
+              (* the same directory under another spelling of its path: nothing to do (as os.Rename) *)
+              if match nchild with Some (nc, _) => Nat.eqb nc oc | None => false end && negb (str_eqb oldname newname)
+              then (s, ROk)
+              else (s, RFail (if owin s then EW_AccessDenied else EFileExists))
             else if on_dir ocn && (Nat.eqb oc op || is_prefix (o_abs ++ [sepc (o_os s)]) n_abs)
             then (s, RFail EInvalidArgument)
             else if on_dir ocn && n_ok
